@@ -42,9 +42,20 @@ def acq_expander(prog, ci, branch):
         return NotImplemented
     ex.call_hook = hook
 
+    ex.extra_returns = []
+
     def on_if(node, env):
         if is_tail_switch(node):
             return branch
+        # a conversion of the result's container type (`if type(aq) is not ndarray: aq = array(aq)`) leaves the value alone; any other
+        # arm that RETURNS is another path of the function: its value is recorded and must be the acquisition value too
+        for st_ in getattr(node, "body", []):
+            if isinstance(st_, ast.Return):
+                try:
+                    v_ = ex.eval(st_.value, env) if st_.value is not None else None
+                except Unsupported:
+                    v_ = None
+                ex.extra_returns.append((U(node.test)[:80], st_.lineno, v_))
         return "skip"
     ex.on_if = on_if
     return ex
@@ -68,10 +79,15 @@ def _orient_tail(fn):
             n.body, n.orelse = n.orelse, n.body
 
 
+EXTRA = []
+
+
 def evaluate(prog, ci, fn, branch):
     ex = acq_expander(prog, ci, branch)
     env = {fn.args.args[1].arg: R.sym("x")}
     res = guard(lambda: ex.run(fn.body, env))
+    del EXTRA[:]
+    EXTRA.extend(ex.extra_returns)
     sub = {("sym", "MU[0]"): MU, ("sym", "SIG[0]"): SIG, ("sym", "MU"): MU, ("sym", "SIG"): SIG}
 
     def fix(v):
@@ -136,6 +152,11 @@ def run(prog, tier):
             v = evaluate(prog, ci, call, br)
             obs.append(formula_ob("value-form", qual(c, call) + tag, v, val_ref, ACQ, call.lineno,
                                   what=f"{ci.name} value" + (f" ({label} branch)" if label else "")))
+            for test_, line_, xv in list(EXTRA):
+                okx = isinstance(xv, R) and xv.eq(val_ref)
+                obs.append(struct_ob("value-form", qual(c, call) + tag + f"[return@{line_}]", okx,
+                                     f"under `{test_}` the function returns `{xv}` instead of the acquisition value: the value is wrong "
+                                     f"wherever that test holds", ACQ, line_, tier="F"))
             o = evaluate(prog, ci, of, br)
             obs.append(formula_ob("objective-siblings", qual(c2, of) + tag, o, obj_ref, ACQ, of.lineno,
                                   what="optimiser objective = " + ("-log(EI)" if ci.name == "ExpectedImprovement" else "-value")))
@@ -170,6 +191,24 @@ def run(prog, tier):
     obs.append(struct_ob("bounds-passed", qual(c, lb), ok,
                          f"L-BFGS-B must minimise opt_func_gradient (analytic gradient) with bounds=self.bounds: "
                          f"`{U(calls[0]) if calls else None}`", OPT, lb.lineno))
+    # the proposal handed to the caller IS the maximiser the bounded optimiser returned: nothing moves it afterwards
+    cpe, pe = prog.method("GpOptimiser", "propose_evaluation")
+    rpe = Resolver(pe, prog, cpe.module, cpe)
+    moved = []
+    for st_ in ast.walk(pe):
+        if isinstance(st_, (ast.Assign, ast.AugAssign)):
+            tg_ = st_.targets[0] if isinstance(st_, ast.Assign) else st_.target
+            rets_pe = [U(r_.value) for r_ in ast.walk(pe) if isinstance(r_, ast.Return) and isinstance(r_.value, ast.Name)]
+            if isinstance(tg_, ast.Name) and tg_.id in rets_pe:
+                v_ = st_.value
+                arith = isinstance(st_, ast.AugAssign) or any(isinstance(x, ast.BinOp) for x in ast.walk(v_)) \
+                    or any(isinstance(x, ast.Call) and U(x.func).split(".")[-1] in ("clip", "round", "around", "floor", "ceil", "minimum", "maximum")
+                           for x in ast.walk(v_))
+                if arith:
+                    moved.append((st_.lineno, U(st_)[:90]))
+    obs.append(struct_ob("bounds-passed", qual(cpe, pe), not moved,
+                         "the proposed evaluation must be the optimiser's solution (found inside the bounds) handed on unchanged: "
+                         + "; ".join(f"line {l}: `{t}`" for l, t in moved[:2]), OPT, moved[0][0] if moved else pe.lineno, tier="E"))
     ac = prog.cls("AcquisitionFunction")
     sp = ac.methods.get("starting_positions")
     rs = Resolver(sp, prog, ac.module, ac)
@@ -297,6 +336,18 @@ def run(prog, tier):
         why = f"append lines {l_x},{l_y}; refit line {gp_st[0].lineno} with {kw}; update line {l_up}"
     else:
         why = f"append lines {l_x},{l_y}; refits {len(gp_st)}; update line {l_up}"
+    # the three data arrays stay row-aligned: each is extended AT ITS END with the new evaluation's entry (old first, new second)
+    misordered = []
+    for st_ in ast.walk(ae):
+        if isinstance(st_, ast.Assign) and len(st_.targets) == 1 and U(st_.targets[0]) in ("self.x", "self.y", "self.y_err") \
+                and isinstance(st_.value, ast.Call) and U(st_.value.func) in ("append", "concatenate", "hstack", "vstack"):
+            a_ = st_.value.args[0].elts if len(st_.value.args) == 1 and isinstance(st_.value.args[0], (ast.Tuple, ast.List)) else st_.value.args
+            if len(a_) >= 2 and ast.unparse(a_[0]) != ast.unparse(st_.targets[0]):
+                misordered.append((st_.lineno, ast.unparse(st_)[:80]))
+    if misordered:
+        ok = False
+        why += "; " + "; ".join(f"line {l}: `{t}` does not put the stored entries first" for l, t in misordered[:2]) + \
+               " - the arrays are no longer aligned row by row, so the refit pairs values with other points' errors"
     obs.append(struct_ob("refit-order", qual(c, ae), ok,
                          "add_evaluation must append the new data, refit the regressor on the appended arrays, then update the "
                          "acquisition with the new regressor: " + why, OPT, ae.lineno))
